@@ -185,13 +185,14 @@ def discharge_with_ia(F, an, entries, sites, tree=None, partitions=True):
             an._reached = {}
             an.memo = {}
             an.ctx_count = {}
-            an.add_obs, an.trip, an.incr = {}, {}, {}
+            an.add_obs, an.trip, an.incr, an.def_obs = {}, {}, {}, {}
             an.trip_seen = set()
             _one_pass(F, an, entries, sites, tree)
             # budget idioms with this partition's own trip counts and increments (joined over partitions they would
             # combine the chain count of one parameter row with the digit size of another)
             capacity_budget(F, an, sites)
             accumulator_budget(F, an, sites)
+            range_len_index(F, an, sites)
             for s in sites:
                 per_site[id(s)].append((s.status, s.detail))
                 s.status, s.detail = None, ""
@@ -498,37 +499,45 @@ def index_guard(F, an, f, bb, own, cap, loops):
             grow.append(b)
     if grow != [bb] or (an.incr.get((f.path, bb)) or 99) > 1:
         return None
-    # the loop driver: `next` of a Range<usize> whose start is the constant 0
+    # the loop driver: `next` of a Range<usize> whose start is the constant 0, or of an `enumerate()` adaptor
+    # (numbering starts at 0 whatever it wraps) that is consumed directly (no skip/step/rev above it)
     idx_local = None
+    idx_proj = None
     for b in body:
         t = f.blocks[b]["term"]
-        if t["k"] == "call" and core.strip_generics(core.callee_path(t) or "").endswith("::next") and "ops::range::Range<usize>" in (core.op_place(t["args"][0]) or {}).get("ty", ""):
-            it = iter_owner_local(f, t["args"][0])
-            if it is None:
-                continue
-            o = flow.origin(f, {"k": "copy", "place": {"local": it, "proj": []}})
-            if o[0] == "call" and core.strip_generics(core.callee_path(o[2]) or "").endswith("into_iter"):
-                o = flow.origin(f, o[2]["args"][0])
+        if t["k"] != "call" or not core.strip_generics(core.callee_path(t) or "").endswith("::next"):
+            continue
+        ity = (core.op_place(t["args"][0]) or {}).get("ty", "")
+        it = iter_owner_local(f, t["args"][0])
+        if it is None:
+            continue
+        o = flow.origin(f, {"k": "copy", "place": {"local": it, "proj": []}})
+        if o[0] == "call" and core.strip_generics(core.callee_path(o[2]) or "").endswith("into_iter"):
+            o = flow.origin(f, o[2]["args"][0])
+        if "ops::range::Range<usize>" in ity:
             rl = None
             if o[0] == "local" and o[1] is not None:
                 rl = o[1]
             ds = [d for d in f.defs_of(rl)] if rl is not None else []
             if len(ds) == 1 and ds[0][1] != "term" and ds[0][2]["rv"]["k"] == "aggregate" and "ops::range::Range" in ds[0][2]["rv"].get("path", ""):
                 if core.op_const_val(ds[0][2]["rv"]["ops"][0]) == 0:
-                    idx_local = t["dest"]["local"]
+                    idx_local, idx_proj = t["dest"]["local"], ["downcast", "field"]
+        elif "adapters::enumerate::Enumerate<" in ity.split("&mut ")[-1][:60]:
+            if o[0] == "call" and core.strip_generics(core.callee_path(o[2]) or "").endswith("::enumerate"):
+                idx_local, idx_proj = t["dest"]["local"], ["downcast", "field", "field"]
     if idx_local is None:
         return None
 
     def is_index(o):
-        """operand is a copy of (next() as Some).0"""
+        """operand is a copy of (next() as Some).0 (range) / (next() as Some).0.0 (enumerate)"""
+        acc = []
         for _ in range(6):
             p = core.op_place(o)
             if p is None:
                 return False
-            if p["local"] == idx_local and [e["k"] for e in p["proj"]] == ["downcast", "field"]:
-                return True
-            if p["proj"]:
-                return False
+            acc = p["proj"] + acc
+            if p["local"] == idx_local:
+                return ([e["k"] for e in acc] == idx_proj and all(e.get("i", 0) == 0 for e in acc if e["k"] == "field"))
             ds = f.defs_of(p["local"])
             if len(ds) != 1 or ds[0][1] == "term" or ds[0][2]["k"] != "assign" or ds[0][2]["rv"]["k"] != "use":
                 return False
@@ -558,6 +567,74 @@ def index_guard(F, an, f, bb, own, cap, loops):
         if bound <= cap and flow.edge_dominates(f, g, edge, bb):
             return "one growth site per iteration of a loop over 0.., reached only when index < %d <= capacity %d (guard at %s)" % (bound, cap, f.loc(g))
     return None
+
+
+INDEX_CALLS = {"<tinyvec::arrayvec::ArrayVec<A> as core::ops::index::Index<I>>::index", "<tinyvec::arrayvec::ArrayVec<A> as core::ops::index::IndexMut<I>>::index_mut"}
+
+
+def range_len_index(F, an, sites):
+    """Idiom `for i in s..v.len() { v[i] }` (s a constant): the index site's operand is the `Some` payload of `next`
+    on a `Range<usize>` whose end is `len()` of the *same* vector, and the vector's length cannot have changed in
+    between (it has one definition in the function and no `&mut` borrow of it reaches anything but element access).
+    Intervals cannot express i < len(v); this relational fact is read off the loop's shape."""
+    for s in sites:
+        if s.status is not None or s.kind != "index" or s.callee not in INDEX_CALLS:
+            continue
+        f = s.f
+        t = f.blocks[s.bb]["term"]
+        if len(t["args"]) != 2:
+            continue
+        own = flow.resolve_owner_path(f, t["args"][0])
+        if own is None:
+            continue
+        v, path = own
+        if len([d for d in f.defs_of(v) if not f.blocks[d[0]]["cleanup"] and not (d[1] != "term" and d[2]["place"]["proj"])]) != 1:
+            continue
+        if [x for x in vector_escapes(f, v, path)] or any(
+                core.strip_generics(core.callee_path(t2) or "") in LEN_GROWING and flow.resolve_owner_path(f, t2["args"][0], want_mut=True) == own
+                for b2, t2 in f.calls() if not f.blocks[b2]["cleanup"]):
+            continue
+        # index operand -> (next() as Some).0
+        o = t["args"][1]
+        nxt = None
+        for _ in range(8):
+            pl = core.op_place(o)
+            if pl is None:
+                break
+            if [e["k"] for e in pl["proj"]] == ["downcast", "field"]:
+                ds = [d for d in f.defs_of(pl["local"]) if not f.blocks[d[0]]["cleanup"]]
+                if len(ds) == 1 and ds[0][1] == "term" and core.strip_generics(core.callee_path(ds[0][2]) or "").endswith("::next"):
+                    nxt = ds[0][2]
+                break
+            if pl["proj"]:
+                break
+            ds = [d for d in f.defs_of(pl["local"]) if not f.blocks[d[0]]["cleanup"]]
+            if len(ds) != 1 or ds[0][1] == "term" or ds[0][2]["k"] != "assign" or ds[0][2]["rv"]["k"] != "use":
+                break
+            o = ds[0][2]["rv"]["op"]
+        if nxt is None or "ops::range::Range<usize>" not in (core.op_place(nxt["args"][0]) or {}).get("ty", ""):
+            continue
+        it = iter_owner_local(f, nxt["args"][0])
+        if it is None:
+            continue
+        og = flow.origin(f, {"k": "copy", "place": {"local": it, "proj": []}})
+        if og[0] == "call" and core.strip_generics(core.callee_path(og[2]) or "").endswith("into_iter"):
+            og = flow.origin(f, og[2]["args"][0])
+        if og[0] != "local" or og[1] is None:
+            continue
+        ds = [d for d in f.defs_of(og[1]) if not f.blocks[d[0]]["cleanup"]]
+        if len(ds) != 1 or ds[0][1] == "term" or ds[0][2]["rv"]["k"] != "aggregate" or "ops::range::Range" not in ds[0][2]["rv"].get("path", ""):
+            continue
+        start, end = ds[0][2]["rv"]["ops"]
+        if core.op_const_val(start) is None or core.op_const_val(start) < 0:
+            continue
+        eo = flow.origin(f, end)
+        if eo[0] != "call" or core.strip_generics(core.callee_path(eo[2]) or "") != "tinyvec::arrayvec::ArrayVec::len":
+            continue
+        if flow.resolve_owner_path(f, eo[2]["args"][0]) != own:
+            continue
+        s.status = "budget"
+        s.detail = "range-len index: the index is the variable of a loop over %d..len() of the same, length-stable vector" % core.op_const_val(start)
 
 
 def iter_owner_local(f, operand):
@@ -644,79 +721,97 @@ def capacity_budget(F, an, sites):
                 s.detail += " | budget: a loop trip count or increment is unknown"
 
 
+def accumulator_bound(F, an, f, l):
+    """Upper bound of a loop-carried accumulator: an unsigned local all of whose definitions are either outside every loop
+    (the initial values, taken from IA's record of those definitions) or, inside loops, the result of a checked addition to
+    itself.  Then  x <= max(init) + sum over additions (max increment x product of the enclosing loops' trip counts).
+    Returns (bound, description, blocks of the additions) or (None, reason, [])."""
+    rng = ia.ty_range(f.locals[l]["ty"])
+    if not rng or rng[0] != 0:
+        return None, "not an unsigned local", []
+    allloops = f.natural_loops()
+    ds = [d for d in f.defs_of(l) if not f.blocks[d[0]]["cleanup"]]
+    if any(d[1] != "term" and d[2].get("place", {}).get("proj") for d in ds):
+        return None, "partially assigned", []
+    inside = [d for d in ds if any(d[0] in body for h, body in allloops)]
+    outside = [d for d in ds if d not in inside]
+    if not inside or not outside:
+        return None, "not loop-carried", []
+    adds = []
+    for d in inside:
+        src = [ab for ab in range(len(f.blocks)) if f.blocks[ab]["term"]["k"] == "assert" and f.blocks[ab]["term"]["msg"].get("kind") == "Overflow"
+               and f.blocks[ab]["term"]["msg"].get("op") == "Add" and not f.blocks[ab]["cleanup"] and feeds_from(f, d, ab)
+               and l in (root_local(f, f.blocks[ab]["term"]["msg"]["a"]), root_local(f, f.blocks[ab]["term"]["msg"]["b"]))]
+        if len(src) != 1:
+            return None, "an in-loop definition is not a checked addition to itself", []
+        adds.append(src[0])
+    x0 = 0
+    for d in outside:
+        iv = an.def_obs.get((f.path, l, d[0]))
+        if iv is None:
+            if d[0] not in getattr(an, "_reached", {}).get(f.path, set()):
+                continue
+            return None, "initial value unknown", []
+        x0 = max(x0, iv[1])
+    total = 0
+    parts = []
+    for ab in adds:
+        obs = an.add_obs.get((f.path, ab))
+        if not obs and ab not in getattr(an, "_reached", {}).get(f.path, set()):
+            continue  # this addition is infeasible in every analysed context
+        if not obs or obs[0] is None or obs[1] is None:
+            return None, "increment unknown", []
+        tm = f.blocks[ab]["term"]["msg"]
+        inc = obs[1] if root_local(f, tm["a"]) == l else obs[0]
+        mult = 1
+        for h, body in allloops:
+            if ab in body:
+                tr = loop_trip(F, an, f, h, body, allloops)
+                if tr is None:
+                    return None, "loop trip count unknown", []
+                mult *= tr
+        total += mult * inc[1]
+        parts.append("%d x %d" % (mult, inc[1]))
+    return x0 + total, "%d + %s = %d" % (x0, " + ".join(parts) or "0", x0 + total), adds
+
+
 def accumulator_budget(F, an, sites):
-    """Idiom: `x += d` inside counted loop(s) where x is a loop-carried accumulator whose only in-loop
-    definition is this addition: x <= x0 + (product of trip counts) * max(d) must fit the type."""
+    """Idiom: `x += d` inside counted loop(s) where x is a loop-carried accumulator (see accumulator_bound): the bound must
+    fit the type.  A later `x + y` on the finished accumulator is bounded by bound + max(y)."""
     for s in sites:
         if s.status is not None or s.desc != "assert:Overflow:Add":
             continue
         f = s.f
         t = f.blocks[s.bb]["term"]
         m = t["msg"]
-        loops = [(h, body) for h, body in f.natural_loops() if s.bb in body]
-        if not loops:
-            continue
-        # which operand is the accumulator: a multi-definition local with exactly one definition inside the loop,
-        # namely the result of this checked addition
-        acc = None
-        inbody = set().union(*[b for h, b in loops])
+        why = ""
         for side in ("a", "b"):
             l = root_local(f, m[side])
             if l is None:
                 continue
-            ds = [d for d in f.defs_of(l) if not f.blocks[d[0]]["cleanup"]]
-            inside = [d for d in ds if d[0] in inbody]
-            # every in-loop definition of the accumulator is the result of a checked addition to it
-            adds = []
-            for d in inside:
-                src = [ab for ab in inbody if f.blocks[ab]["term"]["k"] == "assert" and f.blocks[ab]["term"]["msg"].get("kind") == "Overflow"
-                       and f.blocks[ab]["term"]["msg"].get("op") == "Add" and feeds_from(f, d, ab)
-                       and l in (root_local(f, f.blocks[ab]["term"]["msg"]["a"]), root_local(f, f.blocks[ab]["term"]["msg"]["b"]))]
-                if len(src) != 1:
-                    adds = None
-                    break
-                adds.append(src[0])
-            if len(ds) >= 2 and inside and adds and s.bb in adds:
-                acc = (side, l, adds)
-        if acc is None:
-            continue
-        incs = []
-        x0 = None
-        bad = False
-        for ab in acc[2]:
-            obs = an.add_obs.get((f.path, ab))
-            if not obs and ab not in getattr(an, "_reached", {}).get(f.path, set()):
-                continue  # this addition is infeasible in every analysed context
-            if not obs or obs[0] is None or obs[1] is None:
-                bad = True
+            bound, descr, adds = accumulator_bound(F, an, f, l)
+            if bound is None:
+                why = descr
+                continue
+            rng = ia.ty_range(f.locals[l]["ty"])
+            if s.bb in adds:
+                if bound <= rng[1]:
+                    s.status = "budget"
+                    s.detail = "accumulator budget: %s <= %d" % (descr, rng[1])
+                else:
+                    why = "%s exceeds the type" % descr
                 break
-            tm = f.blocks[ab]["term"]["msg"]
-            a_side = "a" if root_local(f, tm["a"]) == acc[1] else "b"
-            a_iv, b_iv = obs if a_side == "a" else (obs[1], obs[0])
-            incs.append(b_iv[1])
-            x0 = a_iv[0] if x0 is None else min(x0, a_iv[0])
-        if bad:
-            continue
-        a_iv, b_iv = (x0, x0), (0, sum(incs))
-        mult = 1
-        ok = True
-        allloops = f.natural_loops()
-        for h, body in loops:
-            tr = loop_trip(F, an, f, h, body, allloops)
-            if tr is None:
-                ok = False
+            # an addition to the accumulator that does not feed back into it
+            obs = an.add_obs.get((f.path, s.bb))
+            other = None if not obs else (obs[1] if side == "a" else obs[0])
+            orng = ia.ty_range({"s": core.op_place(m[side])["ty"]}) if core.op_place(m[side]) else None
+            if other is not None and orng and bound + other[1] <= orng[1]:
+                s.status = "budget"
+                s.detail = "accumulator budget: (%s) + %d <= %d" % (descr, other[1], orng[1])
                 break
-            mult *= tr
-        if not ok:
-            s.detail += " | accumulator: loop trip count unknown"
-            continue
-        rng = ia.ty_range(f.locals[acc[1]]["ty"])
-        bound = a_iv[0] + mult * b_iv[1]
-        if rng and bound <= rng[1]:
-            s.status = "budget"
-            s.detail = "accumulator budget: %d + %d x %d = %d <= %d" % (a_iv[0], mult, b_iv[1], bound, rng[1])
-        else:
-            s.detail += " | accumulator: %d + %d x %d = %d exceeds the type" % (a_iv[0], mult, b_iv[1], bound)
+            why = "(%s) + %s exceeds the type" % (descr, other)
+        if s.status is None and why:
+            s.detail += " | accumulator: %s" % why
 
 
 def root_local(f, operand, depth=0):
@@ -768,6 +863,10 @@ def apply_obligations(F, A, an, sites):
                 res2 = [(r,) + R.check(r) for r in ob["alt"]]
                 if all(r[1] for r in res2):
                     res, bad = res2, []
+                else:
+                    b2 = [r for r in res2 if not r[1]][0]
+                    bad = bad + [("%s [alternative set: %s does not hold (%s)]" % (bad[0][0], b2[0], b2[2][:200]), False, bad[0][2])]
+                    bad = bad[-1:] + bad[:-1]
             if bad:
                 s.detail = "reviewed obligation %s no longer applies: dependency %s does not hold (%s) | %s" % (ob["id"], bad[0][0], bad[0][2][:200], s.detail)
                 s.failed_req = bad[0][0]
